@@ -46,7 +46,7 @@ func strs(l []interface{}, def []string) []string {
 func (f *rnsFam) Setup(cfg M, rng *rand.Rand) {
 	f.rng = rng
 	f.accts = strs(getl(cfg, "accts"), []string{"a", "b", "c"})
-	f.names = strs(getl(cfg, "names"), []string{"alpha.jkl", "ab.ibc", "beta.jkl"})
+	f.names = strs(getl(cfg, "names"), []string{"alpha.jkl", "ab.ibc", "beta.jkl", "alpha.ibc"})
 	f.denoms = []string{"ujkl", "uusd"}
 	f.datas = []string{"{}", "{\"k\":1}"}
 	f.recs = []string{"r1", "r2"}
